@@ -271,6 +271,7 @@ void fill_base(Rng &g, Scn &s, int Tmax_small) {
   s.i["ioseed"] = (long)(g.next() >> 2);
   s.i["fz"] = g.chance(0.2) ? 1 : 0;
   s.i["kb"] = (long)g.below(2);
+  s.i["echo"] = g.chance(0.25) ? 1 : 0;   // the command line's default: progress, mode names and results are printed
   Bytes key(16);
   g.bytes(key.data(), 16);
   switch (g.below(24)) {   // a few structured keys: C-string style handling of the key, sign / zero byte slips
@@ -301,6 +302,7 @@ OpSpec base_op(const Scn &s, int kind, int slot, SimFile *fin, SimFile *fout, lo
   const Bytes &k = s.getb("key");
   for (size_t i = 0; i < 16 && i < k.size(); i++) op.key[i] = k[i];
   op.keyslot = (int)s.geti("kb", 0);
+  op.echo = s.geti("echo", 0) != 0;
   op.seedstr = s.getb("seedstr");
   op.fin = fin;
   op.fout = fout;
